@@ -226,6 +226,7 @@ func init() {
 			{Name: "fieldlens", TShards: 2, Run: lengthUnit("fastq")},
 			{Name: "parallel", Race: true, Run: codecParallel("fastq")},
 			{Name: "histories", Run: codecHistories("fastq")},
+			{Name: "readerzoo", TShards: 4, Run: zooUnit("fastq")},
 			firstCallUnit(firstCodec("fastq")),
 		},
 	})
